@@ -48,7 +48,29 @@ type HeapCtx struct {
 	opaque   map[string]string // opaque predicate bodies -> symbol
 	mapZero  map[string]*Term  // MV array name -> zero value of the map's element type
 	seenRep  map[string]bool
+	accessLog map[string]string // while translating an opaque body: heap array name -> version term read
+	freshFrom map[string]freshProv // array version -> the version it was havocked from with a fresh-only frame
+	opaqueSyms map[string][]*opaqueSym // pred key -> symbols created so far
 	emit     func(t *Term) // adds an unconditional assumption
+}
+
+type freshProv struct {
+	old  *Term
+	next *Term // allocation counter before the call / loop: cells of objects below it are unchanged
+}
+
+type opaqueSym struct {
+	sym    string
+	arrays map[string]string
+	sorts  []*Sort
+}
+
+// noteFreshFrame records that array version `after` equals `before` on all cells of objects allocated below next.
+func (h *HeapCtx) noteFreshFrame(before, after, next *Term) {
+	if h.freshFrom == nil {
+		h.freshFrom = map[string]freshProv{}
+	}
+	h.freshFrom[after.S] = freshProv{before, next}
 }
 
 // wfArr: every reference stored in heap array a is nil or allocated (id < nx); slices are well-formed.
@@ -96,7 +118,13 @@ func (h *HeapCtx) arr(st *State, name string, sort *Sort) *Term {
 	}
 	_ = st
 	if t, ok := st.heap[name]; ok {
+		if h.accessLog != nil {
+			h.accessLog[name] = t.S
+		}
 		return t
+	}
+	if h.accessLog != nil {
+		h.accessLog[name] = name + "@0"
 	}
 	c := h.d.Const(name+"@0", sort)
 	if h.seen0 == nil {
